@@ -85,6 +85,19 @@ def run(tier):
             raise core.ToolError("apalache failed on ResetLaw (%s): %s" % (inv, p.stdout[-800:]))
     shutil.rmtree(outdir, ignore_errors=True)
     core.log("  Apalache: ResetLaw action invariant Law and inductive WF hold for all integers: %s" % apalache)
+    # TLAPS: the same law and the inductive invariant as theorems about every behaviour (ResetLawProof.tla)
+    pdir = os.path.join(core.BUILD, "tlaps")
+    shutil.rmtree(pdir, ignore_errors=True)
+    os.makedirs(pdir)
+    for f in ("ResetLaw.tla", "ResetLawProof.tla"):
+        shutil.copy(os.path.join(apdir, f), pdir)
+    p = subprocess.run(["timeout", "1800", "tlapm", "--threads", "8", "ResetLawProof.tla"], cwd=pdir, stdout=subprocess.PIPE, stderr=subprocess.STDOUT, text=True)
+    import re
+    m = re.search(r"All (\d+) obligations proved", p.stdout)
+    if not m:
+        raise core.ToolError("TLAPS did not prove ResetLawProof: " + p.stdout[-1500:])
+    core.log("  TLAPS: %s obligations of ResetLawProof proved (Spec => []WF, Spec => [][Law]_vars)" % m.group(1))
+    shutil.rmtree(pdir, ignore_errors=True)
     if tier != "quick":
         cmd = ["java", "-XX:+UseParallelGC", "-cp", core.JAR, "-DTLA-Library=" + core.SPEC, "tlc2.TLC", "-workers", "8", "-metadir",
                os.path.join(core.BUILD, "tlc", "c05-link.meta"), "-cleanup", "-noGenerateSpecTE", "-config", "MC_ResetLawLink.cfg", "MC_ResetLawLink.tla"]
